@@ -111,15 +111,20 @@ func blockToSeqPair(alignedBlock alignedBlockInfo, ref []byte) alignPair {
 		for _, insertion := range insertions {
 			// this is the pair it is already present in, which we will skip:
 			rowNumber := insertion.rowNumber
-			for j, seqPair := range alignedBlock.seqpairArray {
-				// don't reinsert - the insertion already exists in this one
+			for j := range alignedBlock.seqpairArray {
+				// don't reinsert - the insertion already exists in this one, but it does
+				// shift the coordinates of everything after it
 				if j == rowNumber {
+					offsets[j] += insertion.length
 					continue
 				}
 
+				// the column of this row that the insertion goes in front of
+				at := insertion.start + offsets[j]
+
 				// if the insertions starts after the (offset) length of this sequence,
 				// we don't have to do anything to this pair here
-				if insertion.start > len(alignedBlock.seqpairArray[j].ref)-offsets[j] {
+				if at > len(refSeqArray[j]) {
 					continue
 				}
 
@@ -129,13 +134,19 @@ func blockToSeqPair(alignedBlock alignedBlockInfo, ref []byte) alignPair {
 					gaps[k] = '-'
 				}
 
-				refSeqArray[j] = refSeqArray[j][:insertion.start+offsets[j]]
-				refSeqArray[j] = append(refSeqArray[j], gaps...)
-				refSeqArray[j] = append(refSeqArray[j], seqPair.ref[insertion.start+offsets[j]:]...)
+				// build the new rows in fresh slices: appending to a truncated row would
+				// overwrite the bases that follow the insertion point in the same array
+				newRef := make([]byte, 0, len(refSeqArray[j])+insertion.length)
+				newRef = append(newRef, refSeqArray[j][:at]...)
+				newRef = append(newRef, gaps...)
+				newRef = append(newRef, refSeqArray[j][at:]...)
+				refSeqArray[j] = newRef
 
-				queSeqArray[j] = seqPair.query[:insertion.start+offsets[j]]
-				queSeqArray[j] = append(queSeqArray[j], gaps...)
-				queSeqArray[j] = append(queSeqArray[j], seqPair.query[insertion.start+offsets[j]:]...)
+				newQue := make([]byte, 0, len(queSeqArray[j])+insertion.length)
+				newQue = append(newQue, queSeqArray[j][:at]...)
+				newQue = append(newQue, gaps...)
+				newQue = append(newQue, queSeqArray[j][at:]...)
+				queSeqArray[j] = newQue
 
 				// and we add the relevant offset to account for this insertion in future coordinates
 				offsets[j] += insertion.length
